@@ -132,19 +132,42 @@ def make_data(shape, dtype, off=0, nodata=None):
     return a
 
 
+def zlen(d):
+    """Side of the all-zero corner: the largest 16*2^k below the image side (the side itself for d <= 16)."""
+    for t in (512, 256, 128, 64, 32, 16):
+        if d > t:
+            return t
+    return d
+
+
+def punch_zeros(v):
+    """v: (bands, y, x) *view* of the data. Zero the top-left corner in every band so that, on every block grid
+    with block <= zlen, whole tiles hold nothing but valid zeros; plus valid zeros scattered in non-zero tiles."""
+    _, h, w = v.shape
+    zh, zw = zlen(h), zlen(w)
+    if (zh, zw) != (h, w):
+        v[:, :zh, :zw] = 0
+    if h * w > 2:
+        for y, x in ((h - 1, w // 2), (h // 2, w - 1), (h - 1, 0), (0, w - 1)):
+            if (y, x) != (h - 1, w - 1):  # last pixel carries the nodata value
+                v[:, y, x] = 0
+
+
 def bands_of(data, layout):
     if layout == "YX":
         return data[np.newaxis]
     return data if layout[0] == "SYX" else np.moveaxis(data, -1, 0)
 
 
-def build(yx, layout, dtype, tkind="nu", crs="32633", ndkind="none", nd_src="attr", off=0):
+def build(yx, layout, dtype, tkind="nu", crs="32633", ndkind="none", nd_src="attr", off=0, zeros=False):
     """-> (DataArray, raw data, transform, exact, epsg, wanted nodata, extra kwargs for the writer)"""
     crs_str, epsg, geographic = CRSS[crs]
     A, exact = transform_for(tkind, geographic)
     gbox = GeoBox(tuple(yx), A, crs_str)
     nodata = nodata_for(dtype, ndkind)
     data = make_data(layout_shape(yx, layout), dtype, off, nodata)
+    if zeros:
+        punch_zeros(bands_of(data, layout))
     attrs = {}
     kw = {}
     if nodata is not None:
@@ -163,7 +186,7 @@ def build(yx, layout, dtype, tkind="nu", crs="32633", ndkind="none", nd_src="att
     return xx, data, A, exact, epsg, nodata, kw
 
 
-def sub_overviews(xx, layout, dtype, n_ovr):
+def sub_overviews(xx, layout, dtype, n_ovr, zeros=False):
     """Externally supplied overviews: the geo-registered array strided by 2, 4, ... with content that differs from
     any resampling of the image (so a regenerated overview would be noticed)."""
     out = []
@@ -175,7 +198,10 @@ def sub_overviews(xx, layout, dtype, n_ovr):
             o = xx[:, ::st, ::st]
         else:
             o = xx[::st, ::st, :]
-        o = o.copy(data=make_data(o.shape, dtype, off=17 * k + 3))
+        od = make_data(o.shape, dtype, off=17 * k + 3)
+        if zeros:
+            punch_zeros(bands_of(od, layout))
+        o = o.copy(data=od)
         o.attrs.update(xx.attrs)
         out.append(o)
     return out
@@ -260,7 +286,11 @@ def inspect(blob, want_bands, A, exact, epsg, nodata, levels, blocksize, r: R, w
         elif not np.array_equal(got, want_bands, equal_nan=want_bands.dtype.kind == "f"):
             bad = np.argwhere(~((got == want_bands) | ((got != got) & (want_bands != want_bands))))
             b0 = tuple(int(v) for v in bad[0])
-            r.fail(f"decode:pixels:{cls['pix']}",
+            gb_, wb_ = got[tuple(bad.T)], want_bands[tuple(bad.T)]
+            kind = "pixels"
+            if nodata is not None and nodata == nodata and nodata != 0 and (wb_ == 0).all() and (gb_ == nodata).all():
+                kind = "pixels:valid-zero-read-as-nodata"
+            r.fail(f"decode:{kind}:{cls['pix']}",
                    f"{what}: {len(bad)} of {got.size} pixels differ (band order / values), first at band,y,x={b0}: "
                    f"read {got[b0]!r}, written {want_bands[b0]!r}")
         if not transform_matches(src.transform, A, exact):
@@ -311,6 +341,11 @@ def inspect(blob, want_bands, A, exact, epsg, nodata, levels, blocksize, r: R, w
             with open_rio(blob, overview_level=k) as src:
                 g = src.read()
             if g.shape != wo.shape or not np.array_equal(g, wo, equal_nan=wo.dtype.kind == "f"):
+                if (g.shape == wo.shape and nodata is not None and nodata == nodata and nodata != 0
+                        and (wo[g != wo] == 0).all() and (g[g != wo] == nodata).all()):
+                    r.fail(f"overviews:external-content:valid-zero-read-as-nodata:{cls['pix']}",
+                           f"{what}: supplied overview level {k}: {int((g != wo).sum())} valid 0 pixels read back as nodata {nodata!r}")
+                    continue
                 # class of the supplied layer itself: a band-first layer (n, n, n) is a cube even when the image is not
                 lay, api = cls["pix"].split(":", 1)
                 if lay == "band-first" and wo.shape[0] > 1 and wo.shape[0] == wo.shape[1] == wo.shape[2]:
@@ -490,7 +525,7 @@ def run_s3(case):
     path = ("2pass" if ovl else "1pass") + ":" + dest
     ov = "default" if ovl is None else len(ovl)
     r = R(outcome=f"s3:{shape_class(yx)}:block{bs}:ovr{ov}:win{int(windowed)}:{ic}:{dest}")
-    xx, data, A, exact, epsg, nodata, kw = build(yx, layout, "uint16", "nu", "3857", "special")
+    xx, data, A, exact, epsg, nodata, kw = build(yx, layout, "uint16", "nu", "3857", "special", zeros=True)
     cls = mkcls(yx, layout, "nu", "3857", "uint16", "special", "attr", path, "write_cog", bs, ovl)
     cls["pix"] += f":win{int(windowed)}"
     run_write(r, str(case), xx, data, layout, A, exact, epsg, nodata, dest=dest, ovl=ovl, blocksize=bs, cls=cls,
@@ -553,11 +588,11 @@ def run_s4b(case):
     _, okind, layout, bs, obs, windowed, ic, nd_src, dest = case
     yx = (33, 50)
     r = R(outcome=f"s4b:{okind}:block{bs}:ovrblock{obs}:win{int(windowed)}:{ic}:{dest}")
-    xx, data, A, exact, epsg, nodata, kw = build(yx, layout, "int16", "shear", "3857", "special", nd_src)
+    xx, data, A, exact, epsg, nodata, kw = build(yx, layout, "int16", "shear", "3857", "special", nd_src, zeros=True)
     if obs is not None:
         kw["ovr_blocksize"] = obs
     if okind == "external":
-        ext, ovl, path, api = sub_overviews(xx, layout, "int16", 2), "ext", f"layers:{dest}", "write_cog+overviews"
+        ext, ovl, path, api = sub_overviews(xx, layout, "int16", 2, zeros=True), "ext", f"layers:{dest}", "write_cog+overviews"
     else:
         ext, ovl, path, api = None, (2, 4), f"2pass:{dest}", "write_cog"
     cls = mkcls(yx, layout, "shear", "3857", "int16", "special", nd_src, path, api, bs, ovl)
@@ -659,21 +694,61 @@ def gen_s6(tier):
         for yx in S6_SHAPES:
             for layout in ("YX", ("SYX", 2), ("YXS", 3)):
                 for bs in (None, 100, 256):
-                    for windowed in (False, True):
-                        for dest in ("mem", "file"):
-                            yield ("s6", yx, layout, bs, windowed, dest)
+                    for ovl in (None, (), (2,)):
+                        for windowed in (False, True):
+                            for dest in ("mem", "file"):
+                                yield ("s6", yx, layout, bs, ovl, windowed, dest)
 
     return g
 
 
 def run_s6(case):
-    _, yx, layout, bs, windowed, dest = case
-    side = "both>=512" if min(yx) >= 512 else "both<512" if max(yx) < 512 else "mixed"
-    r = R(outcome=f"s6:{side}:block{bs}:win{int(windowed)}:{dest}")
-    xx, data, A, exact, epsg, nodata, kw = build(yx, layout, "uint8", "nu", "32633", "special")
-    cls = mkcls(yx, layout, "nu", "32633", "uint8", "special", "attr", f"default:{dest}", "write_cog", bs, None)
-    cls["st"] = f"block{bs}:{side}:default"
-    run_write(r, str(case), xx, data, layout, A, exact, epsg, nodata, dest=dest, ovl=None, blocksize=bs, cls=cls,
+    _, yx, layout, bs, ovl, windowed, dest = case
+    side = side_class(yx)
+    ov = "default" if ovl is None else "none" if not ovl else "levels" + "-".join(map(str, ovl))
+    r = R(outcome=f"s6:{side}:block{bs}:ovr-{ov}:win{int(windowed)}:{dest}")
+    xx, data, A, exact, epsg, nodata, kw = build(yx, layout, "uint8", "nu", "32633", "special", zeros=True)
+    path = ("2pass" if ovl or (ovl is None and side != "both<512") else "1pass") + f":{dest}"
+    cls = mkcls(yx, layout, "nu", "32633", "uint8", "special", "attr", path, "write_cog", bs, ovl)
+    cls["st"] = f"block{bs}:{side}:{ov}"
+    cls["pix"] += f":win{int(windowed)}"
+    run_write(r, str(case), xx, data, layout, A, exact, epsg, nodata, dest=dest, ovl=ovl, blocksize=bs, cls=cls,
+              use_windowed_writes=windowed, **kw)
+    return r
+
+
+def side_class(yx):
+    return "both>=512" if min(yx) >= 512 else "both<512" if max(yx) < 512 else "mixed"
+
+
+# s6b: externally supplied overviews on images around / above 512 px: the stored levels are exactly the supplied ones
+S6B_SHAPES = ((520, 600), (512, 512), (511, 520))
+
+
+def gen_s6b(tier):
+    def g():
+        for yx in S6B_SHAPES:
+            for layout in ("YX", ("SYX", 2), ("YXS", 3)):
+                for n_ovr in (0, 1, 2):
+                    for api in ("write_cog", "write_cog_layers"):
+                        for bs in (None, 256):
+                            for windowed in (False, True):
+                                for dest in ("mem", "file"):
+                                    yield ("s6b", yx, layout, n_ovr, api, bs, windowed, dest)
+
+    return g
+
+
+def run_s6b(case):
+    _, yx, layout, n_ovr, api, bs, windowed, dest = case
+    side = side_class(yx)
+    r = R(outcome=f"s6b:{side}:n{n_ovr}:{api}:block{bs}:win{int(windowed)}:{dest}")
+    xx, data, A, exact, epsg, nodata, kw = build(yx, layout, "int16", "nu", "32633", "special", zeros=True)
+    ext = sub_overviews(xx, layout, "int16", n_ovr, zeros=True)
+    cls = mkcls(yx, layout, "nu", "32633", "int16", "special", "attr", f"layers:{dest}", api + "+overviews", bs, "ext")
+    cls["st"] = f"block{bs}:{side}:ext{n_ovr}"
+    cls["pix"] += f":win{int(windowed)}"
+    run_write(r, str(case), xx, data, layout, A, exact, epsg, nodata, dest=dest, api=api, ext=ext, blocksize=bs, cls=cls,
               use_windowed_writes=windowed, **kw)
     return r
 
@@ -761,7 +836,9 @@ def slices(tier):
         e1.Slice("s5-existing-destination", gen_s5(tier), run_s5,
                  "destination {absent, COG, junk} x overwrite {False, True, default} x path type x write variant x layout", shards=32),
         e1.Slice("s6-default-overviews-512", gen_s6(tier), run_s6,
-                 "shapes around the 512 px threshold x layouts x block sizes x windowed x destination (default overview levels)"),
+                 "shapes around the 512 px threshold x layouts x block sizes x overview levels {default, [], [2]} x windowed x destination"),
+        e1.Slice("s6b-external-overviews-512", gen_s6b(tier), run_s6b,
+                 "shapes around / above 512 px x layouts x number of supplied overviews x API x block size x windowed x destination"),
         e1.Slice("s7-helpers", gen_s7(tier), run_s7,
                  "adjust_blocksize on [1,600]x[0,600], norm_blocksize on [1,130]^2, yaxis_from_shape on shapes x layouts", shards=32),
     ]
@@ -781,7 +858,9 @@ def main(ctx):
         nodata=["none", "zero", "special(max / -128 / -9999 / 1.5e300)", "nan (floats)"], nodata_source=["attr", "kwarg", "both"],
         blocksizes=S3_BLOCKS, overview_levels=[list(o) if o is not None else None for o in s3_ovls(ctx.tier)],
         intermediate_compression=list(INTERMEDIATE), ovr_blocksize=[None, 64, 256], external_overviews=[0, 1, 2],
-        s6_shapes=S6_SHAPES, max_image_side_outside_s6=64, helper_domain=S7_N,
+        s6_shapes=S6_SHAPES, s6b_shapes=S6B_SHAPES, s6_overview_levels=[None, [], [2]],
+        data_patterns=["ramp (s1, s2, s4, s5)", "ramp with an all-zero 16*2^k corner in every band + scattered valid zeros "
+                       "(s3, s4b, s6, s6b: the slices that vary windowed writes)"], max_image_side_outside_s6=64, helper_domain=S7_N,
     )
     ctx.assumptions = [
         "rasterio/GDAL (opened on the result, independent of the writing handles) and tifffile are trusted decoders",
